@@ -64,6 +64,7 @@ class Lower:
         self.cur = None
         self.enumconst_cache = {}
         self.cur_ret_ref = False
+        self.cb_target = []
 
     # ------------------------------------------------------------------ names
     def rec_name_of(self, fn):
@@ -239,6 +240,65 @@ class Lower:
         if pending_inst or pending_rec:
             raise LowerError("cannot order type definitions: %r %r" % (pending_inst, [r[1] for r in pending_rec]))
         return '\n'.join(res)
+
+    def gen_default(self, rn):
+        """implicit default constructor of record rn: in-class member initialisers, otherwise default-initialised members"""
+        f = Fn()
+        prev = (self.cur, getattr(self, 'pre', []), getattr(self, 'exc_exit', []), getattr(self, 'local_ids', set()),
+                getattr(self, 'rename', {}), getattr(self, 'vla_len', {}), self.cur_ret_ref)
+        self.cur = f
+        self.pre = []
+        self.local_ids = set()
+        self.rename = {}
+        self.cur_ret_ref = False
+        f.cname = rn + '__default'
+        f.ret = 'struct ' + rn
+        f.params = []
+        f.src = 'implicit default constructor of ' + rn
+        self.exc_exit = ['return __obj;']
+        out = ['  struct %s __obj;' % rn, '  struct %s *this = &__obj;' % rn]
+        rec = self.ast.records[rn]
+        for b in rec.get('bases', []):
+            bn = self.types.strip_ns(parse_type(b['type'].get('desugaredQualType', b['type']['qualType'])).name)
+            ctor = self.find_default_ctor(bn)
+            cn = self.cname(ctor) if ctor is not None else bn + '__default'
+            f.calls.append(cn)
+            if ctor is not None:
+                f.calldecls[cn] = ctor
+            out.append('  this->base = %s();' % cn)
+        for fd in kids(rec):
+            if fd.get('kind') != 'FieldDecl':
+                continue
+            name = fd['name']
+            init = [c for c in kids(fd) if c.get('kind') not in ('FullComment',)]
+            cls, t = self.types.classify(qt(fd))
+            self.types.ctype(t)
+            if init:
+                e = self.ex(init[0])
+                if cls == 'opt' and self.types.classify(qt(strip(init[0])))[0] != 'opt':
+                    out.append('  this->%s.has = 1; this->%s.val = %s;' % (name, name, e))
+                else:
+                    out.append('  this->%s = %s;' % (name, e))
+            elif cls == 'opt':
+                out.append('  this->%s.has = 0;' % name)
+            elif cls == 'str':
+                out.append('  this->%s = cstring__empty();' % name)
+            elif cls in ('vec', 'deq', 'bt', 'umap'):
+                out.append('  this->%s.n = 0;' % name)
+            elif cls == 'record':
+                sub = self.types.strip_ns(t.name)
+                ctor = self.find_default_ctor(sub)
+                cn = self.cname(ctor) if ctor is not None else sub + '__default'
+                f.calls.append(cn)
+                if ctor is not None:
+                    f.calldecls[cn] = ctor
+                out.append('  this->%s = %s();' % (name, cn))
+            # scalars: default-initialisation leaves them indeterminate
+        out.append('  return __obj;')
+        f.body = '\n'.join(out)
+        f.proto = 'struct %s %s(void)' % (rn, f.cname)
+        self.cur, self.pre, self.exc_exit, self.local_ids, self.rename, self.vla_len, self.cur_ret_ref = prev
+        return f
 
     # ------------------------------------------------------------------ constants
     def const_var(self, decl_id):
@@ -601,11 +661,60 @@ class Lower:
             return '(*%s)' % call if self.returns_ref(df) else call
         return self.lib_free_call(name, d, args, n)
 
+    def find_lambda(self, n):
+        if n.get('kind') == 'LambdaExpr':
+            return n
+        for c in kids(n):
+            r = self.find_lambda(c)
+            if r is not None:
+                return r
+        return None
+
+    def lift_callback_call(self, n, f, d, args, optr):
+        """dec.read_array(lambda): the header function is lowered once per call site with the callback inlined as a
+        lifted function (DESIGN section 3: LambdaExpr passed to read_array)"""
+        lam = self.find_lambda(args[0])
+        if lam is None:
+            raise LowerError('std::function argument that is not a lambda')
+        self._lift = getattr(self, '_lift', 0) + 1
+        k = self._lift
+        outer = self.cur
+        # lambda operator()
+        op = None
+        for c in kids(lam):
+            if c.get('kind') == 'CXXRecordDecl':
+                for m in kids(c):
+                    if m.get('kind') == 'CXXMethodDecl' and m.get('name') == 'operator()':
+                        op = m
+        if op is None:
+            raise LowerError('lambda without operator()')
+        cap_t = None
+        this_nodes = [c for c in kids(lam) if c.get('kind') == 'CXXThisExpr']
+        if not this_nodes:
+            raise LowerError('lambda that does not capture this')
+        cap_ct = self.types.ctype(qt(this_nodes[0]))
+        lname = '%s__lambda%d' % (outer.cname, k)
+        lf = self.lower_function(op, cname=lname, force_this=cap_ct)
+        self.lifted.append(lf)
+        # the header function with cb(*this) bound to the lifted lambda
+        df = self.ast.decl2def.get(d['id'], d)
+        iname = '%s__%s__%d' % (self.cname(df), outer.cname, k)
+        self.cb_target.append((lname, 'cap'))
+        inst = self.lower_function(df, cname=iname, extra_params=[(cap_ct, 'cap')], drop_params=['cb'])
+        self.cb_target.pop()
+        self.lifted.append(inst)
+        outer.calls.append(iname)
+        outer.lifted_names = getattr(outer, 'lifted_names', []) + [lname, iname]
+        return '%s(%s, this)' % (iname, optr)
+
     def ex_CXXMemberCallExpr(self, n):
         f, d = self.callee_decl(n)
         args = kids(n)[1:]
         obj = kids(f)[0]
         oe = self.ex(obj)
+        if args and self.types.classify(qt(strip(args[0])))[0] == 'function' and self.is_repo_fn(d):
+            optr0 = oe if f.get('isArrow') else self.addr(oe)
+            return self.lift_callback_call(n, f, d, args, optr0)
         if f.get('isArrow'):
             optr = oe
         else:
@@ -747,6 +856,12 @@ class Lower:
                 return '%s(%s)' % (cn, ', '.join([self.addr(self.ex(a0))] + self.args_for(df, args[1:])))
             return '%s(%s)' % (cn, ', '.join(self.args_for(df, args)))
         self.cur.libcalls.append('%s.%s' % (cls, name))
+        if cls == 'function' and name == 'operator()':
+            if not getattr(self, 'cb_target', None):
+                raise LowerError('call through std::function outside a lifted instance')
+            tgt, cap = self.cb_target[-1]
+            self.cur.calls.append(tgt)
+            return '%s(%s, %s)' % (tgt, cap, self.addr(self.ex(args[1])))
         if cls == 'opt':
             m = self.types.mangle(t.args[0])
             self.types.ctype(t)
@@ -771,7 +886,12 @@ class Lower:
                 return '(*seq_%s__at(%s, %s))' % (m, self.addr(self.ex(a0)), self.ex(args[1]))
             if name == 'operator=':
                 r = strip(args[1])
-                if r.get('kind') == 'InitListExpr' or (r.get('kind') == 'CXXConstructExpr' and kids(r) and strip(kids(r)[0]).get('kind') == 'InitListExpr'):
+                def has_il(x):
+                    x = strip(x)
+                    if x.get('kind') in ('InitListExpr', 'CXXStdInitializerListExpr'):
+                        return True
+                    return x.get('kind') == 'CXXConstructExpr' and bool(kids(x)) and has_il(kids(x)[0])
+                if has_il(r):
                     return self.seq_assign_list(m, self.addr(self.ex(a0)), r, t)
                 return 'seq_%s__assign(%s, %s)' % (m, self.addr(self.ex(a0)), self.addr(self.ex(args[1])))
             raise LowerError("vector " + name)
@@ -821,6 +941,8 @@ class Lower:
     def seq_assign_list(self, m, ptr, r, t):
         while r.get('kind') != 'InitListExpr':
             r = strip(kids(r)[0])
+            if r.get('kind') == 'ImplicitCastExpr':
+                r = strip(kids(r)[0])
         items = kids(r)
         et = self.types.ctype(t.args[0])
         self.pre.append('seq_%s__clear(%s);' % (m, ptr))
@@ -928,6 +1050,7 @@ class Lower:
             ctor_decl = self.find_ctor(rn, ctor)
             if ctor_decl is None:
                 if not args:
+                    self.cur.calls.append(rn + '__default')
                     return '%s__default()' % rn
                 raise LowerError("constructor of %s with signature %r not found" % (rn, ctor))
             cn = self.cname(ctor_decl)
@@ -1397,10 +1520,10 @@ class Lower:
         return bool(txt)
 
     # ------------------------------------------------------------------ functions
-    def lower_function(self, fn, cname=None):
+    def lower_function(self, fn, cname=None, force_this=None, extra_params=(), drop_params=()):
         f = Fn()
         prev = (self.cur, getattr(self, 'pre', []), getattr(self, 'exc_exit', []), getattr(self, 'local_ids', set()),
-                getattr(self, 'rename', {}), getattr(self, 'vla_len', {}))
+                getattr(self, 'rename', {}), getattr(self, 'vla_len', {}), self.cur_ret_ref)
         self.cur = f
         self.pre = []
         self.local_ids = set()
@@ -1413,14 +1536,19 @@ class Lower:
         is_method = fn.get('kind') in ('CXXMethodDecl', 'CXXConstructorDecl', 'CXXDestructorDecl') and fn.get('storageClass') != 'static'
         params = []
         is_ctor = fn.get('kind') == 'CXXConstructorDecl'
-        if is_method and not is_ctor:
+        if force_this:
+            params.append((force_this, 'this'))     # lambda: the captured this
+        elif is_method and not is_ctor:
             params.append(('struct %s *' % rec, 'this'))
             if rec in self.ast.records and rec not in self.types.used_records:
                 self.types.used_records.append(rec)
         for p in kids(fn):
             if p.get('kind') == 'ParmVarDecl':
                 self.local_ids.add(p['id'])
+                if p.get('name') in drop_params:
+                    continue
                 params.append((self.types.ctype(qt(p)), p.get('name') or self.tmp('p')))
+        params.extend(extra_params)
         f.params = params
         ft = fn['type']['qualType']
         # return type: text before the first '(' at depth 0, or trailing return
@@ -1464,7 +1592,7 @@ class Lower:
             inner.append('  return __obj;')
         f.body = '\n'.join(out + inner)
         f.proto = '%s %s(%s)' % (f.ret, f.cname, ', '.join('%s %s' % p for p in params) or 'void')
-        self.cur, self.pre, self.exc_exit, self.local_ids, self.rename, self.vla_len = prev
+        self.cur, self.pre, self.exc_exit, self.local_ids, self.rename, self.vla_len, self.cur_ret_ref = prev
         return f
 
     def returns_ref(self, fn):
